@@ -159,6 +159,10 @@ static GETRANDOM_CALLS: AtomicU64 = AtomicU64::new(0);
 /// for such commits: the extension fails with ENOSPC and the run is skipped, not judged.
 static GROWTH_BLOCK: AtomicBool = AtomicBool::new(false);
 static GROWTH_BLOCKED: AtomicU64 = AtomicU64::new(0);
+/// one-shot: the next extension of a tracked file that is still empty fails with this errno
+/// (the disk is full when a new database is being created); 0 = off
+static FAIL_FIRST_EXTEND: AtomicU64 = AtomicU64::new(0);
+static FIRST_EXTEND_FAILED: AtomicU64 = AtomicU64::new(0);
 /// a blocked flock returns EINTR (a signal arrived) after this many waits; 0 = never
 static FLOCK_EINTR_AFTER: AtomicU64 = AtomicU64::new(0);
 static FLOCK_EINTRS: AtomicU64 = AtomicU64::new(0);
@@ -344,6 +348,14 @@ pub fn set_flock_eintr_after(n: u64) {
 
 pub fn flock_eintrs() -> u64 {
     FLOCK_EINTRS.load(Ordering::SeqCst)
+}
+
+pub fn set_fail_first_extend(errno: i32) {
+    FAIL_FIRST_EXTEND.store(errno as u64, Ordering::SeqCst);
+}
+
+pub fn first_extend_failures() -> u64 {
+    FIRST_EXTEND_FAILED.load(Ordering::SeqCst)
 }
 
 pub fn set_growth_block(on: bool) {
@@ -997,6 +1009,21 @@ unsafe fn set_len(fd: c_int, len: u64, shrink_ok: bool, call: Call) -> c_int {
             GROWTH_BLOCKED.fetch_add(1, Ordering::SeqCst);
             set_errno(libc::ENOSPC);
             return -1;
+        }
+    }
+    if FAIL_FIRST_EXTEND.load(Ordering::SeqCst) != 0 {
+        let cur = with(|s| s.files[s.fds[&fd].fid as usize].len);
+        if cur == 0 && len > 0 {
+            let e = FAIL_FIRST_EXTEND.swap(0, Ordering::SeqCst) as i32;
+            if e != 0 {
+                FIRST_EXTEND_FAILED.fetch_add(1, Ordering::SeqCst);
+                with(|s| {
+                    s.calls += 1;
+                    s.total_calls += 1;
+                });
+                set_errno(e);
+                return -1;
+            }
         }
     }
     if let Decision::Fail(e) = with(|s| decide(s, call)) {
